@@ -33,7 +33,7 @@ FRes == \E rs \in SeqsUpTo({"RA", "RB"}, 4), off \in {0, 1}, kd \in {"geom", "rw
                        !.types = [MA |-> [k \in 1..Len(rs) |-> Res(rs[k], k + off, 2)]],
                        !.bld = <<Line("mol", "MA", 0, 1, 0), Line(kd, rn, lo, hi, 1)>>])
 (* ---- two blocks: overlapping / adjacent / nested / empty molecule ranges, same and different names ---- *)
-FMulti == \E r1 \in Ordered, r2 \in Ordered, n2 \in {"MA", "MB"} :
+FMulti == \E r1 \in Ordered, r2 \in Ordered, n2 \in {"MA", "MB", "MX"} :      \* MX: a name no molecule carries
             InitCase([Base EXCEPT !.fam = "multi", !.mols = <<"MA", "MB", "MA", "MA", "MB">>,
                          !.bld = <<Line("mol", "MA", r1[1], r1[2], 0), Line("geom", "RB", 1, 3, 1), Line("rw", "RA", 1, 2, 2),
                                    Line("mol", n2, r2[1], r2[2], 0), Line("geom", "RB", 2, 4, 3), Line("rw", "RB", 2, 3, 4)>>])
